@@ -60,8 +60,12 @@ Classes ==
        [f |-> "hdr", d |-> "s2c", tgt |-> "later", reg |-> "len", n |-> MinLen - 1],
        [f |-> "hdr", d |-> "s2c", tgt |-> "first", reg |-> "len", n |-> MinLen],
        [f |-> "hdr", d |-> "s2c", tgt |-> "later", reg |-> "len", n |-> 16777216],        \* top length byte set
-       [f |-> "none", d |-> "s2c", tgt |-> "none", reg |-> "none", n |-> 0]>>
+       [f |-> "none", d |-> "s2c", tgt |-> "none", reg |-> "none", n |-> 0],
+       \* fault-free, server->client payloads that do not grow: a receiver that recycles its frame buffer
+       \* writes the later frames over the earlier ones (the harness holds every delivered packet and re-reads it)
+       [f |-> "none", d |-> "s2c", tgt |-> "shrink", reg |-> "none", n |-> 0]>>
 NCls == Len(Classes)
+Shrinking == << <<1000, 60, 60, 3>>, <<65535, 1000, 1000, 1>>, <<60, 60, 4, 4>>, <<1000, 1000, 1000, 0>>, <<4, 3, 1, 1>> >>
 
 SizeBag  == <<0, 1, 3, 4, 60, 1000, 0, 1, 3, 4, 60, 1000, 0, 1, 3, 4, 60, 1000, 65535>>
 SizeBag1 == <<1, 3, 4, 60, 1000, 1, 3, 4, 60, 1000, 65535>>              \* non-empty payloads
@@ -72,7 +76,8 @@ Other(d) == IF d = "c2s" THEN "s2c" ELSE "c2s"
 MkPlan(id) ==
   LET c   == Classes[((id - 1) % NCls) + 1]
       \* number of data frames per direction; the targeted direction has enough of them
-      nT  == IF c.tgt = "later" THEN 2 + Rnd(id, 1, 3) ELSE IF c.tgt = "first" THEN 1 + Rnd(id, 1, 3) ELSE Rnd(id, 1, 5)
+      nT  == IF c.tgt = "later" THEN 2 + Rnd(id, 1, 3) ELSE IF c.tgt = "first" THEN 1 + Rnd(id, 1, 3)
+             ELSE IF c.tgt = "shrink" THEN 4 ELSE Rnd(id, 1, 5)
       nO  == Rnd(id, 2, 5)
       \* index (in sent[d]) of the targeted frame; 0 = handshake / none
       j   == CASE c.tgt = "ack"   -> 1
@@ -80,7 +85,8 @@ MkPlan(id) ==
                [] c.tgt = "later" -> (IF c.d = "s2c" THEN 3 ELSE 2) + Rnd(id, 3, nT - 1)
                [] OTHER -> 0
       jd  == IF c.d = "s2c" THEN j - 1 ELSE j                      \* its index among the data frames
-      szT == [k \in 1..nT |-> IF k = jd /\ c.reg = "payload" THEN PickSeq(SizeBag1, id, 10 + k) ELSE PickSeq(SizeBag, id, 10 + k)]
+      szT == IF c.tgt = "shrink" THEN PickSeq(Shrinking, id, 9)
+             ELSE [k \in 1..nT |-> IF k = jd /\ c.reg = "payload" THEN PickSeq(SizeBag1, id, 10 + k) ELSE PickSeq(SizeBag, id, 10 + k)]
       szO == [k \in 1..nO |-> PickSeq(SizeBag, id, 20 + k)]
   IN [id |-> id, c |-> c, j |-> j,
       name |-> StrCat(StrCat(StrCat(c.f, "-"), StrCat(c.d, "-")), StrCat(StrCat(c.tgt, "-"), IF c.f = "hdr" THEN ToString(c.n) ELSE c.reg)),
